@@ -287,7 +287,7 @@ func (g *vfG) Value(t reflect.Type, tag vfTag, path string) (interface{}, bool) 
 		reflect.Uint, reflect.Uint8, reflect.Uint16, reflect.Uint32, reflect.Uint64:
 		return g.Int(t, tag, path), true
 	case reflect.Float32, reflect.Float64:
-		s := g.pick(path, "float", "0", "0.5", "1", "0.1", "-0.1", "1.5")
+		s := g.pickGB(path, "float", 6, []string{"0", "0.5", "1", "0.1"}, []string{"-0.1", "1.5"})
 		if s == "-0.1" || s == "1.5" {
 			g.bounds[vfLeaf(path)+":out-of-range"] = true
 		}
